@@ -19,6 +19,15 @@ def load_known():
     return json.load(open(p)).get("findings", [])
 
 
+class SetupFailure(Exception):
+    """the code under test failed while a check prepared a case that is valid by construction (for example
+    parse_schema rejecting a specification-valid schema of the family): reported as a violation after replay"""
+
+    def __init__(self, key, what, replay_text):
+        super().__init__(what)
+        self.key, self.what, self.replay_text = key, what, replay_text
+
+
 class Run:
     def __init__(self, pid, tier, seed):
         self.pid, self.tier, self.seed = pid, tier, seed
@@ -139,8 +148,10 @@ class Run:
             wall_s=round(time.time() - self.t0, 2),
             violations=len(new_viol),
         )
-        os.makedirs(os.path.join(ROOT, "evidence"), exist_ok=True)
-        with open(os.path.join(ROOT, "evidence", f"{self.pid}.json"), "w") as f:
+        # seed evaluation (a mutated scratch tree) must not overwrite the evidence of the real tree
+        evdir = os.environ.get("VF_EVIDENCE_DIR") or os.path.join(ROOT, "evidence")
+        os.makedirs(evdir, exist_ok=True)
+        with open(os.path.join(evdir, f"{self.pid}.json"), "w") as f:
             json.dump(ev, f, indent=1, default=str)
         print(f"SUMMARY property={self.pid} tier={self.tier} obligations={n_obl} discharged={disc} "
               f"inconclusive={inc} known={cov['known_findings']} violations={len(new_viol)} "
